@@ -525,6 +525,26 @@ type ExtractOptions struct {
 	Delimiter      string // Cell delimiter (default: tab)
 	ExcludeHeaders bool   // For compatibility with other formats
 	ExcludeFooters bool   // For compatibility with other formats
+
+	HeadingLevelOffset int // Shifts Markdown heading levels (1 makes the sheet name H3)
+	MaxHeadingLevel    int // Caps Markdown heading depth (0 = no cap below 6)
+}
+
+// markdownHeadingPrefix returns the ATX marker for a heading of the given source
+// level: shifted by the configured offset, capped at the configured maximum,
+// within 1..6.
+func markdownHeadingPrefix(level int, opts ExtractOptions) string {
+	level += opts.HeadingLevelOffset
+	if opts.MaxHeadingLevel > 0 && level > opts.MaxHeadingLevel {
+		level = opts.MaxHeadingLevel
+	}
+	if level < 1 {
+		level = 1
+	}
+	if level > 6 {
+		level = 6
+	}
+	return strings.Repeat("#", level) + " "
 }
 
 // Text extracts and returns all text content from the workbook.
@@ -612,7 +632,7 @@ func (r *Reader) MarkdownWithOptions(opts ExtractOptions) (string, error) {
 		}
 
 		// Sheet name as heading
-		result.WriteString("## ")
+		result.WriteString(markdownHeadingPrefix(2, opts))
 		result.WriteString(sheet.Name)
 		result.WriteString("\n\n")
 
@@ -700,6 +720,8 @@ func (r *Reader) MarkdownWithRAGOptions(extractOpts ExtractOptions, mdOpts rag.M
 	}
 
 	// Generate main content
+	extractOpts.HeadingLevelOffset = mdOpts.HeadingLevelOffset
+	extractOpts.MaxHeadingLevel = mdOpts.MaxHeadingLevel
 	md, err := r.MarkdownWithOptions(extractOpts)
 	if err != nil {
 		return "", err
